@@ -1,4 +1,5 @@
 import Chartparse.Proofs.Group
+import Chartparse.Gen.Tables
 /-! Property theorems of C02 (statements only; helper lemmas live in `Proofs/`). -/
 namespace Chartparse.Props.C02
 open Chartparse Chartparse.Inst
@@ -25,5 +26,43 @@ theorem C02_lanes :
     ∀ (g : List NDatum) (l : Nat) (hl : l < 5),
     (lanes g)[l]? = some (g.any fun d => d.idx == l) :=
   @Chartparse.Inst.lanes_spec
+
+/-- obligation on the regenerated `Note` table: every 5-lane combination is a member (so `Note(tuple)` never misses),
+    members are pairwise distinct, and `is_chord` is "more than one lane" -/
+theorem gen_note_table_total :
+    Gen.noteTable.length = 32 ∧ (Gen.noteTable.map (·.1)).Nodup ∧
+    Gen.noteTable.all (fun e => e.1.length == 5 && e.2.2 == decide (1 < e.1.count true)) = true := by decide
+
+/-- obligation: the instrument section offers its kinds as note, star power, track event -/
+theorem gen_instrument_kind_order : Gen.instrumentKindOrder = [0, 1, 2] := by decide
+
+/-- C02 on the model's own pipeline: the N data reach the grouping loop in file order whatever S / E / unparsable lines
+    are interleaved (the dispatcher is a per-line map, its per-kind projection keeps order) -/
+theorem C02_interleave (lines : List Str) :
+    noteData (dataFor Gen.instrumentKindOrder (dispatch Gen.instrumentKindOrder lines) 0) =
+      lines.filterMap (fun l => match Dsp.classify (Gen.instrumentKindOrder.map decodeKind) l 0 with
+        | some (0, .note t i s) => some ⟨t, i, s⟩
+        | _ => none) := by
+  rw [gen_instrument_kind_order]
+  unfold noteData dataFor dispatch Dsp.parseData Dsp.dataOf
+  simp only [List.filterMap_filterMap, List.filterMap_map]
+  congr 1
+  funext l
+  simp only [Function.comp, List.idxOf_cons_self]
+  cases Dsp.classify (List.map decodeKind [0, 1, 2]) l 0 with
+  | none => rfl
+  | some r =>
+    obtain ⟨i, d⟩ := r
+    simp only [Option.bind]
+    by_cases hi : i = 0
+    · subst hi; cases d <;> rfl
+    · simp only [hi, if_false]
+      cases i with
+      | zero => exact absurd rfl hi
+      | succ j => cases d <;> rfl
+
+/-- non-vacuity: a three-lane chord with an interleaved S line and a flag, then a single note one tick later -/
+example : (groups [⟨5, 0, 0⟩, ⟨5, 3, 10⟩, ⟨5, 4, 0⟩, ⟨5, 5, 0⟩, ⟨6, 1, 0⟩]).map lanes =
+    [[true, false, false, true, true], [false, true, false, false, false]] := by decide
 
 end Chartparse.Props.C02
